@@ -974,10 +974,8 @@ def check_readers(ref, probes, R, now=None):
         if sorted(got) != exp:
             sig = "C05:%s-lifetime" % kind if sorted(_strip_life(x) for x in got) == sorted(_strip_life(x) for x in exp) else "C05:%s-records" % kind
             bad.append((sig, "%s returns %r, reference has %r" % (ctx(kind, key), got, exp)))
-            return
-        ep = [d[parse_line(x)[0]][3] for x in got]
-        if ep != sorted(ep):
-            bad.append(("C05:reader-order", "%s lists records inserted by datagrams %r: not in insertion order" % (ctx(kind, key), ep)))
+        # (the order inside a list is not in the property's sentence -- "the same records with the same creation time and TTL" --:
+        # it is compared with the Lean model only, stage C)
 
     for n, got in zip(probes.names, R["E"]):
         cmp_list("entries_with_name", n, got, [i for i in d if i[1] == n.lower()])
@@ -1002,9 +1000,7 @@ def check_readers(ref, probes, R, now=None):
                 bad.append(("C05:get_by_details-records", "get_by_details%r returns %s, not in the reference" % (tuple(t), got)))
             elif got != want[gi]:
                 bad.append(("C05:get_by_details-lifetime", "get_by_details%r returns %s, reference has %s" % (tuple(t), got, want[gi])))
-            elif d[gi][3] != max(d[i][3] for i in cands):
-                bad.append(("C05:reader-order", "get_by_details%r returns a record of datagram %d although a later one (%d) matches"
-                            % (tuple(t), d[gi][3], max(d[i][3] for i in cands))))
+            # (which of several matches it returns -- the most recently inserted one -- is compared with the model only)
     for which, label in (("G", "get"), ("U", "async_get_unique")):
         for r, got in zip(probes.recs, R[which]):
             i = ident_of(r)
